@@ -116,6 +116,19 @@ impl<'a> IRCodeGen<'a> {
         Label(i)
     }
 
+    /// The result variable of an if- or case-expression has to be local to the
+    /// activation that evaluates it. (Only needed if some branch has a value.)
+    fn define_if_assigned(out: Var, code: &[IR]) -> Vec<IR> {
+        if code
+            .iter()
+            .any(|op| matches!(op, IR::Assign(target, _) if *target == out))
+        {
+            vec![IR::Define(out)]
+        } else {
+            Vec::new()
+        }
+    }
+
     fn expression_block(&mut self, out: Var, mut block: Vec<Statement>, ctx: IRContext) -> Vec<IR> {
         let value = match block.last().cloned() {
             Some(Statement::StatementExpression { value, .. }) => {
@@ -279,7 +292,12 @@ impl<'a> IRCodeGen<'a> {
                     .flatten()
                     .collect::<Vec<_>>();
                 (
-                    [code, branches.iter().map(|_| IR::End).collect()].concat(),
+                    [
+                        Self::define_if_assigned(out, &code),
+                        code,
+                        branches.iter().map(|_| IR::End).collect(),
+                    ]
+                    .concat(),
                     out,
                 )
             }
@@ -300,7 +318,7 @@ impl<'a> IRCodeGen<'a> {
                         let cmp = self.var();
                         [
                             if let Some(var) = variable {
-                                vec![IR::Assign(Var(*var), value)]
+                                vec![IR::Define(Var(*var)), IR::Assign(Var(*var), value)]
                             } else {
                                 Vec::new()
                             },
@@ -325,6 +343,11 @@ impl<'a> IRCodeGen<'a> {
 
                 let tag_index = self.var();
                 let value_index = self.var();
+                let branches_code: Vec<IR> = branches_code;
+                let define_out = Self::define_if_assigned(
+                    out,
+                    &[&branches_code[..], &fall_through_code[..]].concat(),
+                );
                 (
                     [
                         cops,
@@ -334,6 +357,7 @@ impl<'a> IRCodeGen<'a> {
                             IR::Int(value_index, 2),
                             IR::Index(value, c, value_index),
                         ],
+                        define_out,
                         branches_code,
                         fall_through_code,
                         (0..branches.len()).map(|_| IR::End).collect(),
@@ -489,7 +513,8 @@ impl<'a> IRCodeGen<'a> {
                     pre_code,
                     code,
                     vec![match op {
-                        BinOp::Nop => IR::Assign(res, var),
+                        // NOTE: A copy, since the temporary has to be local to this activation.
+                        BinOp::Nop => IR::Copy(res, var),
                         BinOp::Add => IR::Add(res, current, var),
                         BinOp::Sub => IR::Sub(res, current, var),
                         BinOp::Mul => IR::Mul(res, current, var),
